@@ -17,7 +17,9 @@ import (
 //
 //	park       what the execution loop is waiting for when the call arrives:
 //	           empty queue | far-future head (1 h) | paused head | inside a 100 ms job in blocking mode |
-//	           blocked on a full worker pool (WorkerLimit 1, the worker busy for 100 ms)
+//	           blocked on a full worker pool (WorkerLimit 1, the worker busy for 100 ms) | "vanishing": a due job that
+//	           was deleted between the loop's Head() and its tick, so that the tick finds an honestly empty queue
+//	           (RetryInterval is 2 s in every scenario: a back-off started by that empty Pop would hold the job back)
 //	call       ScheduleJob of a new due-soon job | ScheduleJob with Replace bringing an existing job forward |
 //	           ResumeJob of a paused job whose trigger is due soon
 //	stall      the loop's next Size() / Head() call (made by the loop only) reads the queue and then sleeps
@@ -161,7 +163,9 @@ func wuRunScenario(sc wuScenario) (res wuResult) {
 		}
 	}()
 	q := &wuStallQ{JobQueue: quartz.NewJobQueue(), inSize: make(chan struct{}, 1), inHead: make(chan struct{}, 1)}
-	opts := []quartz.SchedulerOpt{quartz.WithQueue(q, &sync.Mutex{}), quartz.WithOutdatedThreshold(10 * time.Second)}
+	// RetryInterval far above the latency limit: a back-off that is started without a queue failure (C15) shows up here
+	opts := []quartz.SchedulerOpt{quartz.WithQueue(q, &sync.Mutex{}), quartz.WithOutdatedThreshold(10 * time.Second),
+		quartz.WithRetryInterval(2 * time.Second)}
 	switch sc.Park {
 	case "blocking":
 		opts = append(opts, quartz.WithBlockingExecution())
@@ -228,6 +232,44 @@ func wuRunScenario(sc wuScenario) (res wuResult) {
 			return fail("schedule target to be replaced", err)
 		}
 	}
+	settle := func() { // let the loop settle in its select
+		dl := time.Now().Add(300 * time.Millisecond)
+		for time.Now().Before(dl) {
+			if lc := q.lastCall.Load(); lc != 0 && time.Since(time.Unix(0, lc)) > 3*time.Millisecond {
+				break
+			}
+			time.Sleep(500 * time.Microsecond)
+		}
+	}
+	if sc.Park == "vanishing" {
+		// a job that is due at once is read by the loop (its Head() call sleeps after reading), deleted while the loop is
+		// inside that call, and the timer armed for it has expired when the loop reaches its select: the loop either
+		// takes the token of the DeleteJob or ticks and finds nothing (or only the job under test's pre-state) to pop.
+		// Either way it must end up parked as if the job had never been there — in particular without a back-off.
+		settle()
+		q.stallHead.Store(int64(25 * time.Millisecond))
+		gone := quartz.NewJobKey("vanishing")
+		if err := s.ScheduleJob(quartz.NewJobDetail(&wuJob{}, gone), &wuOnce{delay: 2 * time.Millisecond}); err != nil {
+			return fail("schedule vanishing job", err)
+		}
+		select {
+		case <-q.inHead:
+		case <-time.After(200 * time.Millisecond):
+		}
+		if sc.ID%2 == 0 {
+			_ = s.DeleteJob(gone) // sends a token: the loop takes it or ticks, whichever select picks
+		} else {
+			// taken away behind the scheduler's back, as another node sharing the queue would: no token, the loop
+			// ticks for a job that is no longer there
+			_, _ = q.JobQueue.Remove(gone)
+		}
+		time.Sleep(32 * time.Millisecond)
+		q.stallHead.Store(0)
+		select {
+		case <-q.inHead:
+		default:
+		}
+	}
 	// busy loop: a 100 ms job in blocking mode / on the only worker (+ a second due job that finds the pool full)
 	var blocker *wuJob
 	if sc.Park == "blocking" || sc.Park == "pool" {
@@ -253,14 +295,7 @@ func wuRunScenario(sc wuScenario) (res wuResult) {
 			time.Sleep(time.Millisecond)
 		}
 	} else {
-		// let the loop settle in its select
-		dl := time.Now().Add(300 * time.Millisecond)
-		for time.Now().Before(dl) {
-			if lc := q.lastCall.Load(); lc != 0 && time.Since(time.Unix(0, lc)) > 3*time.Millisecond {
-				break
-			}
-			time.Sleep(500 * time.Microsecond)
-		}
+		settle()
 	}
 	// open the re-arm window
 	if sc.Stall == "mutation" {
@@ -392,14 +427,14 @@ func wuRunScenario(sc wuScenario) (res wuResult) {
 func wakeupRun(args []string) int {
 	fs := flag.NewFlagSet("wakeup", flag.ExitOnError)
 	seed := fs.Int64("seed", 1, "")
-	n := fs.Int("n", 480, "number of scenarios (the matrix has 240 cells)")
+	n := fs.Int("n", 576, "number of scenarios (the matrix has 288 cells)")
 	par := fs.Int("par", 12, "schedulers running in parallel")
 	out := fs.String("out", "", "")
 	fs.Parse(args)
 	r := rand.New(rand.NewSource(*seed))
 
 	var cells []wuScenario
-	for _, park := range []string{"empty", "far", "paused", "blocking", "pool"} {
+	for _, park := range []string{"empty", "far", "paused", "blocking", "pool", "vanishing"} {
 		for _, call := range []string{"schedule", "replace", "resume"} {
 			for _, stall := range []string{"none", "size", "head", "mutation"} {
 				for _, inter := range []string{"none", "delete", "pause", "clear"} {
